@@ -266,7 +266,7 @@ def bundled(ctx):
 def run(ctx):
     rng = ctx.rng("c09")
     styles = [("prefix", "xtce"), ("prefix", "xtce"), ("default",), ("none",), ("prefix", "custom")]
-    for i in range(ctx.size(160, 5000)):
+    for i in range(ctx.size(320, 40000)):
         if not ctx.mine(i):
             continue
         r = ctx.rng("doc", i)
